@@ -37,7 +37,7 @@ def itemGet (g : G) (obj idx : Val) : Res (Option Val) :=
        let rs := strRunes s
        let j := getClampRealIndex i rs.length
        if j.toNat + 1 ≤ rs.length then .ok (some (.str (String.ofList ((rs.drop j.toNat).take 1))))
-       else .unsup "string index one past the end reads the rune slice's spare capacity"
+       else .err "无法获取此下标"
      | _ => .err ("类型错误: 数字下标必须为数字，不能为 " ++ typeName idx))
   | .nobj _ => .err "此类型无法取下标"
   | _ => .err "此类型无法取下标"
@@ -454,7 +454,7 @@ def exec (sub : SubRun) (g : G) (f : Frame) (ins : Instr) : StepR :=
     (match f.pop with
      | .ok (v, f') =>
        (match readInt v with
-        | none => pan g f' "MustReadInt@coc"
+        | none => err g f' ("E6: 类型错误, 骰点参数必须为整数，不能为 " ++ typeName v)
         | some n =>
           if n < 0 then err g f' "奖励骰/惩罚骰个数不能为负数" else
           let g1 := addOps g c n
@@ -473,7 +473,7 @@ def exec (sub : SubRun) (g : G) (f : Frame) (ins : Instr) : StepR :=
     (match f.pop with
      | .ok (v, f') =>
        (match readInt v with
-        | none => pan g f' "MustReadInt@wod/dc"
+        | none => err g f' ("E6: 类型错误, 骰点参数必须为整数，不能为 " ++ typeName v)
         | some i =>
           .next g (match ins with
             | .wodPoints => { f' with wodPoints := i }
@@ -487,7 +487,7 @@ def exec (sub : SubRun) (g : G) (f : Frame) (ins : Instr) : StepR :=
     (match f.pop with
      | .ok (v, f') =>
        (match readInt v with
-        | none => pan g f' "MustReadInt@dice.wod"
+        | none => err g f' ("E6: 类型错误, 骰点参数必须为整数，不能为 " ++ typeName v)
         | some addLine =>
           if f'.wodPool < 1 || f'.wodPool > 20000 then err g f' "E7: 非法数值, 骰池范围是1到20000"
           else if addLine != 0 && addLine < 2 then err g f' "E7: 非法数值, 加骰线必须为0[不加骰]，或≥2"
@@ -507,7 +507,7 @@ def exec (sub : SubRun) (g : G) (f : Frame) (ins : Instr) : StepR :=
     (match f.pop with
      | .ok (v, f') =>
        (match readInt v with
-        | none => pan g f' "MustReadInt@dice.dc"
+        | none => err g f' ("E6: 类型错误, 骰点参数必须为整数，不能为 " ++ typeName v)
         | some addLine =>
           if f'.dcPool < 1 || f'.dcPool > 20000 then err g f' "E7: 非法数值, 骰池范围是1到20000"
           else if addLine < 2 then err g f' "E7: 非法数值, 加骰线必须大于等于2"
@@ -522,8 +522,7 @@ def exec (sub : SubRun) (g : G) (f : Frame) (ins : Instr) : StepR :=
              | _ => .stop g f' .diverge))
      | r => bad g f r)
   | .blockPush =>
-    if f.blocks.length > 20 then err g f "语句块嵌套层数过多"
-    else if f.blocks.length == 20 then pan g f "index out of range [20]@block.push"
+    if f.blocks.length ≥ 20 then err g f "语句块嵌套层数过多"
     else .next g { f with blocks := f.top :: f.blocks }
   | .blockPop =>
     (match f.blocks with
@@ -532,8 +531,7 @@ def exec (sub : SubRun) (g : G) (f : Frame) (ins : Instr) : StepR :=
        let f1 := { f with top := t, blocks := rest }
        pushV g f1 (if f1.fblocks.length > 0 then .str "" else .null))
   | .fstrPush =>
-    if f.fblocks.length > 20 then err g f "字符串模板嵌套层数过多"
-    else if f.fblocks.length == 20 then pan g f "index out of range [20]@fstr.block.push"
+    if f.fblocks.length ≥ 20 then err g f "字符串模板嵌套层数过多"
     else .next g { f with fblocks := f.top :: f.fblocks }
   | .fstrPop =>
     (match f.fblocks with
